@@ -9,12 +9,16 @@ the driver instantiates it with the runtime's `Float`. `as usize` casts saturate
 
 Part 2: the delivery model. The VM has one flat call stack; `execute_instructions` invocations
 ("entries") are delimited by frames whose `execution_barrier` is set (Koto::run, call_and_run_function,
-arithmetic/derived-comparison operator overloads, `@display`, `@next`, `@iterator`, imports; a
-generator body runs in its own VM, whose bottom frame plays the same role). Every entry creates its
-own poller. A timeout detected in an entry unwinds with `allow_catch = false` up to and including
-that entry's barrier frame, is returned to the native caller as an ordinary `Err`, and — if the
-native caller propagates it, as all callers in the runtime do — is re-raised by the enclosing
-entry's loop through `pop_call_stack_on_error(error, true)`: the error kind is not consulted there.
+arithmetic/derived-comparison operator overloads, `@display`, `@next`, `@iterator` through the public
+`make_iterator`, imports; a generator body runs in its own VM, whose bottom frame plays the same
+role). Every entry creates its own poller. A timeout detected in an entry unwinds with
+`allow_catch = false` up to and including that entry's barrier frame and is returned to the native
+caller as an `Err` that keeps its kind; the native caller propagates it (as all callers in the
+runtime do; the `for` instruction keeps the kind of a timeout coming out of an iterator), and the
+enclosing entry's loop re-raises it through
+`pop_call_stack_on_error(error, !matches!(error.error, ErrorKind::Timeout(_)))` — since the repair of
+F-C08-1 (commit 5a7e832) the error kind decides, so a timeout stays uncatchable in every enclosing
+entry, while every other error is catchable there.
 -/
 namespace KotoVerif.Timeout
 
@@ -177,43 +181,47 @@ def unwind (allowCatch : Bool) : List Frame → Option Nat × List Frame
     | true, h :: _ => (some h, f :: rest)
     | _, _ => if f.barrier then (none, f :: rest) else unwind allowCatch rest
 
-/-- The whole path of an error raised in the top entry: `unwind`; on `Err` the entry's caller pops
-the barrier frame (`pop_frame`) and returns the error to the native code that started the entry;
-that code propagates it, so the instruction of the enclosing entry that called the native code
-fails and `execute_instructions` runs `pop_call_stack_on_error(error, true)` — for every error kind.
-`fuel` bounds the number of entries crossed (the stack length suffices). -/
-def deliver : Nat → Bool → List Frame → Delivery
-  | 0, _, _ => .escaped
-  | fuel + 1, allowCatch, stack =>
+/-- the two kinds of error that matter for delivery -/
+inductive ErrKind where
+  | timeout   -- `ErrorKind::Timeout`
+  | other     -- thrown values, runtime errors, …
+  deriving Repr, DecidableEq
+
+/-- `allow_catch` used by `execute_instructions` for an error returned by an instruction:
+`!matches!(error.error, ErrorKind::Timeout(_))` -/
+def ErrKind.allowCatch : ErrKind → Bool
+  | .timeout => false
+  | .other => true
+
+/-- The whole path of an error raised in the top entry with the given `allowCatch` (`false` for a
+timeout reported by the poller, `kind.allowCatch` for a failing instruction): `unwind`; on `Err` the
+entry's caller pops the barrier frame (`pop_frame`) and returns the error — kind preserved — to the
+native code that started the entry; that code propagates it, so the instruction of the enclosing
+entry that called the native code fails and `execute_instructions` runs
+`pop_call_stack_on_error(error, kind.allowCatch)`. `fuel` bounds the number of entries crossed (the
+stack length suffices). -/
+def deliver : Nat → ErrKind → Bool → List Frame → Delivery
+  | 0, _, _, _ => .escaped
+  | fuel + 1, kind, allowCatch, stack =>
     match unwind allowCatch stack with
     | (some h, rest) => .caught h rest.length
     | (none, []) => .escaped
     | (none, _ :: []) => .escaped                 -- outermost entry (host call): error returned to the host
-    | (none, _ :: below) => deliver fuel true below
+    | (none, _ :: below) => deliver fuel kind kind.allowCatch below
 
-/-- The same path as one structural recursion (proved equal to `deliver` in `Props/C08`). -/
-def deliverFlat : Bool → List Frame → Delivery
-  | _, [] => .escaped
-  | allowCatch, f :: rest =>
+/-- The same path as one structural recursion (proved equal to `deliver` in `Lemmas/C08`). -/
+def deliverFlat : ErrKind → Bool → List Frame → Delivery
+  | _, _, [] => .escaped
+  | kind, allowCatch, f :: rest =>
     match allowCatch, f.catches with
     | true, h :: _ => .caught h (f :: rest).length
-    | _, _ => if f.barrier then deliverFlat true rest else deliverFlat allowCatch rest
+    | _, _ => if f.barrier then deliverFlat kind kind.allowCatch rest else deliverFlat kind allowCatch rest
 
-/-- A timeout detected in the top entry. -/
-def deliverTimeout (stack : List Frame) : Delivery := deliver (stack.length + 1) false stack
+/-- A timeout detected (by the poller) in the top entry. -/
+def deliverTimeout (stack : List Frame) : Delivery := deliver (stack.length + 1) .timeout false stack
 
 /-- An ordinary error raised in the top entry. -/
-def deliverError (stack : List Frame) : Delivery := deliver (stack.length + 1) true stack
-
-/-- the frames of the top entry: up to and including the first barrier frame -/
-def topEntry : List Frame → List Frame
-  | [] => []
-  | f :: rest => if f.barrier then [f] else f :: topEntry rest
-
-/-- the frames below the top entry -/
-def belowTopEntry : List Frame → List Frame
-  | [] => []
-  | f :: rest => if f.barrier then rest else belowTopEntry rest
+def deliverError (stack : List Frame) : Delivery := deliver (stack.length + 1) .other true stack
 
 /-- innermost open handler of a stack, looking through entry boundaries -/
 def firstHandler : List Frame → Option Nat
